@@ -47,6 +47,12 @@ func VH_C01_pair() {
 	vNote("DH public values and shared secrets have no leading zero byte (full-width MPIs)")
 	vhQuickOrder()
 	a, b := vhFreshParty(0, v3), vhFreshParty(1, v3)
+	if vChoose("stale", 2) == 1 {
+		// an earlier session with somebody else left a peer key behind: the key
+		// reported after this exchange must be the one that signed this exchange
+		a.c.theirKey = a.key.PublicKey()
+		b.c.theirKey = b.key.PublicKey()
+	}
 	// B asks for a conversation; A starts the exchange
 	q := b.c.QueryMessage()
 	_, toB, err := a.c.Receive(q)
